@@ -111,7 +111,9 @@ def collect_fields_untyped(
     variables: Mapping[str, Any],
     _seen_fragments: Optional[Set[str]] = None,
 ) -> GroupedFields:
-    _seen_fragments = _seen_fragments or set()
+    if _seen_fragments is None:
+        _seen_fragments = set()
+
     grouped_fields = OrderedDict()  # type: GroupedFields
 
     for selection in selections:
@@ -152,6 +154,10 @@ def collect_fields_untyped(
                 # invalid fragments.
                 continue
 
+            # As we don't validate either, fragments can be cyclic: mark the
+            # fragment as seen before its own selections are collected.
+            _seen_fragments.add(name)
+
             _merge(
                 collect_fields_untyped(
                     fragment.selection_set.selections,
@@ -161,8 +167,6 @@ def collect_fields_untyped(
                 ),
                 into=grouped_fields,
             )
-
-            _seen_fragments.add(name)
 
     return grouped_fields
 
